@@ -267,6 +267,12 @@ func (f *frame) callFunc(fn *ssa.Function, bindings []*Val, args []*Val, res ssa
 		if fc := f.e.contractFor(f.pkg, fn); fc != nil && fc.Trusted != "" && fc.Pure {
 			return f.callContract(fc, fn, args, pos)
 		}
+		// a harness function of the contract file that carries a contract of its own, called from another
+		// harness: code under contract (the callee is verified against that contract on its own), not a
+		// specification function
+		if fc := f.e.contractFor(f.pkg, fn); fc != nil && !fc.Lemma && !fc.Extern && fc.Trusted == "" && !f.pure && f.c != nil && len(fc.Ensures) > 0 {
+			return f.callContract(fc, fn, args, pos)
+		}
 		return f.specCall(fn, args)
 	}
 	if fn.Name() == "As" && fn.Pkg != nil && (fn.Pkg.Pkg.Path() == "errors" || fn.Pkg.Pkg.Path() == "github.com/go-faster/errors") && len(args) == 2 {
